@@ -15,7 +15,7 @@ CONSTANTS MaxDepth
 
 LeafClasses == {"id", "num", "op", "text"}
 Fillers == {"emptyMrow", "emptyMi", "emptyMn", "emptyMo", "emptyMtext", "wsMtext", "none", "mspace", "mphantom",
-            "emptyMstyle", "nestedEmptyMrow", "emptyMrowIntent"}
+            "emptyMstyle", "nestedEmptyMrow", "emptyMrowIntent", "allPhantomMrow", "malignRow"}
 Kinds == {"mrow", "mfrac", "msqrt", "mroot", "msub", "msup", "msubsup", "munder", "mover", "munderover",
           "mmultiscripts", "mtable", "mfenced", "mstyle", "mpadded", "menclose", "semantics", "mrow1", "mstyle1", "msqrt1"}
 \* number of slots of the default shape of each kind ("mrow1"/"mstyle1"/"msqrt1" = the same element with a single child)
